@@ -465,6 +465,26 @@ func genC05(e *emitter, r *rng, thorough bool) {
 			}
 		}
 	}
+	// back to back in one process: a point, its negation, the same point in the other formats, a wrong-parity hybrid, an
+	// invalid X in between — what a last-result memo keyed by part of the input gets wrong
+	for i := 0; i < 12; i++ {
+		g := mulG(new(big.Int).SetBytes(r.bytes(1 + r.intn(32))))
+		if g.isInf() {
+			continue
+		}
+		pk, nk := pubOf(g.x, g.y), pubOf(g.x, new(big.Int).Sub(curveP, g.y))
+		c, nc := pk.SerialiseCompressed(), nk.SerialiseCompressed()
+		badHybrid := pk.SerialiseHybrid()
+		badHybrid[0] ^= 1
+		offCurve := append([]byte{}, c...)
+		offCurve[32] ^= byte(1 + r.intn(255))
+		seq := [][]byte{c, nc, c, pk.SerialiseUncompressed(), nc, nk.SerialiseUncompressed(), c, pk.SerialiseHybrid(), nc, nk.SerialiseHybrid(), badHybrid, c, offCurve, nc, offCurve, c}
+		hs := make([]string, len(seq))
+		for j, b := range seq {
+			hs[j] = hx(b)
+		}
+		e.emit("parse.seq.twins-and-formats", "parsepub.seq "+strings.Join(hs, ","))
+	}
 	nr := 8
 	if thorough {
 		nr = 40
@@ -1024,6 +1044,42 @@ func genC12(e *emitter, r *rng, thorough bool) {
 		e.emit("recover.doubling-c", "compact.recover "+hx(mk(hb+4, R.x, ss))+" "+hx(pad32(ee.Bytes())))
 		e.emit("recover.doubling.other-parity", "compact.recover "+hx(mk(hb^1, R.x, ss))+" "+hx(pad32(ee.Bytes())))
 	}
+	// constructed partial cancellation: with u1 = -e/r = A*256^j + B and u2 = s/r the key is u2 R + u1 G.  Choose u2 k =
+	// -A*256^j (or -B): the sum of sR and the LEADING (or trailing) byte windows of u1 G is exactly infinity before the
+	// remaining windows are added — an accumulation that adds the base-point windows onto sR with a formula that has no
+	// infinity case loses the rest.  The key is B*G (or A*256^j*G) and the signature is valid for it.
+	for j := 1; j <= 31; j++ {
+		if !thorough && j%3 != 1 && j != 29 && j != 31 {
+			continue
+		}
+		k := modN(new(big.Int).SetBytes(r.bytes(32)))
+		if k.Sign() == 0 {
+			continue
+		}
+		R := mulG(k)
+		if R.x.Cmp(curveN) >= 0 || R.x.Sign() == 0 {
+			continue
+		}
+		A := new(big.Int).SetBytes(r.bytes(32 - j))
+		A.Rsh(A, 1) // keeps A*256^j + B below N
+		B := new(big.Int).SetBytes(r.bytes(j))
+		hi := new(big.Int).Lsh(A, uint(8*j))
+		if A.Sign() == 0 || B.Sign() == 0 {
+			continue
+		}
+		u1 := new(big.Int).Add(hi, B)
+		for v, part := range []*big.Int{hi, B} {
+			u2 := modN(new(big.Int).Mul(new(big.Int).Neg(part), invN(k)))
+			ss := modN(new(big.Int).Mul(u2, R.x))
+			ee := modN(new(big.Int).Neg(new(big.Int).Mul(u1, R.x)))
+			if ss.Sign() == 0 {
+				continue
+			}
+			hb := byte(27 + R.y.Bit(0))
+			e.emit(fmt.Sprintf("recover.partial-cancel.%d", v), "compact.recover "+hx(mk(hb, R.x, ss))+" "+hx(pad32(ee.Bytes())))
+			e.emit(fmt.Sprintf("recover.partial-cancel-c.%d", v), "compact.recover "+hx(mk(hb+4, R.x, ss))+" "+hx(pad32(ee.Bytes())))
+		}
+	}
 	// constructed infinity: R = kG, s = e/k  =>  s R = e G  =>  Q = r^-1 (sR - eG) = infinity
 	nInf := 6
 	if thorough {
@@ -1211,6 +1267,13 @@ func genC14(e *emitter, r *rng, thorough bool) {
 		p := pool[1+r.intn(len(pool)-1)]
 		pk := pubOf(p.x, p.y).SerialiseCompressed()
 		e.emit("addr.seq", fmt.Sprintf("addr.seq %s %d,%d,%d,%d", hx(pk), r.intn(256), r.intn(256), 0, 111))
+	}
+	// addresses of keys with a history: relatives derived, neutered, re-networked and wiped around the key whose address is
+	// read (every live key's address is observed after each step)
+	for i := 0; i < 6; i++ {
+		root := "seed:" + hx(r.bytes(16+r.intn(40))) + ":" + fmt.Sprint(r.intn(2))
+		e.emit("addr.history", xkLine(root, []string{"c0:0", "z1", "n0", "c2:1", "z3", "c0:2147483649", "n4", "z4", "s2:1", "c2:5", "z0"}))
+		e.emit("addr.history.quiet", "xkq"+xkLine(root, []string{"c0:7", "z1", "n0", "c2:7", "z3"})[2:])
 	}
 	// hash helpers: padding edges
 	for _, l := range []int{0, 1, 31, 32, 33, 55, 56, 57, 63, 64, 65, 111, 112, 119, 120, 127, 128, 129, 255, 256, 300} {
